@@ -84,11 +84,60 @@ def run_c20(ctx, C):
     codec_common(ctx, C, [GEN_HEAP], [], mcs=[MC_HEAP] + MC_HEAP_KNOBS, traces=())
 
 
+GEN_SK = dict(module="Gen_SK", name="sk")
+MC_SK = dict(module="SKChannel", name="skchannel",
+             constants=dict(Msgs='{"m1", "m2"}', MaxOps=lambda ctx: 5 if ctx.thorough else 4, ResetBeforeMac=True, ResetPerPrfBlock=True, MacFirst=True, PeerKeys=True),
+             invariants=("AsFresh", "AcceptOnlySent", "RoundTrip", "MacBeforeDecrypt", "RetypeIsPlain", "NoReflection"), view="View",
+             what="protected channel with Dolev-Yao adversary: three SA objects, two messages, all operation sequences")
+
+
+def mc_sk_knob(k):
+    return dict(module="SKChannel", name="skchannel_knob_" + k, expect="violate",
+                constants=dict(dict(Msgs='{"m1", "m2"}', MaxOps=4, ResetBeforeMac=True, ResetPerPrfBlock=True, MacFirst=True, PeerKeys=True), **{k: False}),
+                invariants=("AsFresh", "AcceptOnlySent", "RoundTrip", "MacBeforeDecrypt", "RetypeIsPlain", "NoReflection"), view="View",
+                what="sanity: mechanism %s removed -> TLC must find a counterexample" % k)
+
+
+ASSUME_SK = ASSUME_CODEC + ["AES, HMAC-MD5/SHA1/SHA256 are uninterpreted in the specification and interpreted by Go's crypto standard library in the harness",
+                            "HMAC collisions and IV repetitions are treated as never happening"]
+
+
+def run_c01(ctx, C):
+    codec_common(ctx, C, [GEN_SK], [], mcs=[MC_SK, mc_sk_knob("PeerKeys")], traces=("Trace_SK",))
+
+
+GEN_ADV = dict(module="Gen_Adversary", name="adversary")
+
+
+def run_c02(ctx, C):
+    codec_common(ctx, C, [GEN_ADV, GEN_SK], [], mcs=[MC_SK, mc_sk_knob("MacFirst"), mc_sk_knob("PeerKeys")], traces=("Trace_SK",))
+
+
+def run_c06(ctx, C):
+    codec_common(ctx, C, [GEN_SK], [], mcs=[MC_SK], traces=("Trace_SK",))
+
+
 def run_c04(ctx, C):
     codec_common(ctx, C, [GEN_CURSOR], [DRV_BYTES])
 
 
 PLANS = {
+    "C02": dict(level="model_checking", run=run_c02, assumptions=ASSUME_SK,
+                rule="SKChannel.tla with a Dolev-Yao adversary model-checked (AcceptOnlySent, MacBeforeDecrypt, NoReflection; knob-off sanity runs); for "
+                     "suite x role x base message the sender really protects, then EVERY single-bit flip of the datagram, every proper prefix, extensions, "
+                     "length-field overwrites with and without matching truncation, header/body/IV/checksum splices of two messages, unrelated keys, "
+                     "reflection and all 255 other values of the first-payload octet are offered to the receiver (spy-wrapped key objects: Decrypt must "
+                     "not be called); recorded calls are judged by Trace_SK from the octets and the echo-oracle HMAC alone"),
+    "C01": dict(level="model_checking", run=run_c01, assumptions=ASSUME_SK,
+                rule="SKChannel.tla model-checked (RoundTrip, NoReflection, ...); TLC enumerates suite x role x message shape (every payload kind, empty "
+                     "list, long chains, pad-boundary sizes, 65 KB) x header mode x random-source class; real SA objects for both ends are keyed from "
+                     "the vector's key octets; EncodeEncrypt then DecodeDecrypt in the opposite role must give the spec's message; unkeyed fallback "
+                     "equals plain codec; recorded calls judged by Trace_SK"),
+    "C06": dict(level="model_checking", run=run_c06, assumptions=ASSUME_SK,
+                rule="direction 1: every datagram EncodeEncrypt produced is split by the spec (SplitSK) and judged with two echo oracles (HMAC over the "
+                     "span the spec names, textbook CBC decryption of the segment the spec names): header cleartext, SK next-payload, both lengths, "
+                     "IV, padding law, truncated HMAC under the sender's keys; direction 2: TLC prints reference-built datagrams (RefProtect) for "
+                     "suite x role x message x every legal pad length x pad/IV contents and DecodeDecrypt must return the message"),
     "C20": dict(level="model_checking", run=run_c20, assumptions=ASSUME_CODEC,
                 rule="HeapLife.tla (ownership of octets) model-checked exhaustively to 6 operations, with three knob-off sanity runs; every history "
                      "over {decode, unprotect, scribble input, encode, scribble output, protect, observe} up to MaxOps is replayed on a pool message "
